@@ -325,14 +325,11 @@ fn run_inner(def: &PropDef, tier: Tier, seed: u64, jobs_max: usize, scratch: &Pa
                         j.profile.clone(),
                     ));
                     e.0 += 1;
-                } else if !se.is_empty() {
-                    let text = String::from_utf8_lossy(&se);
-                    machinery_errors.push(format!(
-                        "worker {}/{} wrote to stderr: {}",
-                        j.profile,
-                        j.shard,
-                        text.lines().next().unwrap_or("")
-                    ));
+                } else {
+                    // a worker that finished normally printed nothing itself (machinery failures
+                    // exit non-zero): these octets come from the code under test, which is
+                    // C19's business, not this property's
+                    merged.extra.insert("note_output_from_code_under_test".into(), json!("worker stdout/stderr not empty: see C19"));
                 }
             }
             continue;
@@ -462,7 +459,10 @@ fn run_inner(def: &PropDef, tier: Tier, seed: u64, jobs_max: usize, scratch: &Pa
             }
         }
         if !reproduced {
-            machinery_errors.push(format!("violation {sig} did not reproduce twice from its replay file {}", path.display()));
+            machinery_errors.push(format!(
+                "violation {sig} was observed in the sweep but did not reproduce twice in a fresh process from its replay file {} — the result depends on call history or timing (see C19) or the harness is nondeterministic; not reported as a verdict",
+                path.display()
+            ));
             continue;
         }
         viol_report.push(json!({"signature": sig, "count": count, "detail": detail, "replay": path.to_string_lossy(), "known": kf.is_some()}));
